@@ -165,7 +165,7 @@ Definition handle_stream_data (push_first : bool) (f : frame) : list act :=
   if push_first then push_part f ++ fin_part f else fin_part f ++ push_part f.
 
 (** the order used by the code under verification *)
-Definition code_push_first : bool := false.
+Definition code_push_first : bool := true.
 
 Definition thread_prog (push_first : bool) (fs : list frame) : list act :=
   concat (map (handle_stream_data push_first) fs).
